@@ -89,7 +89,6 @@ def judgeCore (e : Env) (feature : String) (r : NRange) (h : Option Hit) : Optio
     let known :=
       if kind == .payee && !payeeCanonical e h.get! then "payee-estimate"
       else if quotedDirective e h then "quoted-commodity-directive"
-      else if e.crlf && (afterCR e r.sl r.sc || afterCR e r.el r.ec) then "crlf-line-end"
       else ""
     return some (known, s!"{feature}: range {showR r} is not a well-formed range of the document")
   -- on target?
